@@ -112,3 +112,19 @@ def arow_get_clone(c0: int, c1: int, x: int) -> bool:
         ok = ok and cells[x].x == x and cells[x].repeated is None and cells[x].get_value() == before(c0, c1, x)
         cells[x].set_value(78)
     return done(ok and S.canon(row._Element__element) == snap)
+
+
+def arow_set_small(c0: int, c1: int, x: int, rn: int, q: int) -> bool:
+    """
+    pre: 1 <= c0 <= 2 and 1 <= c1 <= 2 and 0 <= x <= 4 and 1 <= rn <= 2 and 0 <= q <= 6
+    post: _
+    """
+    return arow_set(c0, c1, x, rn, q)
+
+
+def arow_insert_small(c0: int, c1: int, x: int, rn: int, q: int) -> bool:
+    """
+    pre: 1 <= c0 <= 2 and 1 <= c1 <= 2 and 0 <= x <= 4 and 1 <= rn <= 2 and 0 <= q <= 6
+    post: _
+    """
+    return arow_insert(c0, c1, x, rn, q)
